@@ -27,6 +27,8 @@ type Opt struct {
 	OptionalValues []string
 	Choices        []string
 	Base           int
+	// FO: the live option (bound by resolveLive)
+	FO *flags.Option
 	// EnvSet: the harness has put this text into the option's environment variable for the current case
 	EnvSet *string
 	// TruthText: the spelling of the required / optional / hidden marks ("" = the usual "true"/"yes"); any text
@@ -82,11 +84,15 @@ type Grp struct {
 	Hidden     bool
 	Ptr        bool // declared as pointer-to-struct field
 	ByAddGroup bool // attached with Command.AddGroup instead of a group: tag
-	Opts       []*Opt
-	Subs       []*Grp
-	Plain      []*PlainField
-	Parent     *Grp
-	Cmd        *Cmd
+	// Late: registered with AddGroup after the parser was built (and possibly used); LateVia "command" =
+	// Parser/Command.AddGroup on the owning command, "group" = Group.AddGroup on the parent group
+	Late    bool
+	LateVia string
+	Opts    []*Opt
+	Subs    []*Grp
+	Plain   []*PlainField
+	Parent  *Grp
+	Cmd     *Cmd
 
 	idx int
 	typ reflect.Type
@@ -631,12 +637,35 @@ func (d *Decl) Build() *Built {
 		p.EnvNamespaceDelimiter = d.EnvDelim
 	}
 	b.P = p
+	if gs := p.Command.Group.Groups(); len(gs) > 0 && (root.G.Namespace != "" || root.G.EnvNS != "") {
+		// (the root struct has no tag of its own: a namespace on it can only be set programmatically)
+		gs[0].Namespace = root.G.Namespace
+		gs[0].EnvNamespace = root.G.EnvNS
+	}
 	p.SubcommandsOptional = root.SubOptional
 	root.FC = p.Command
 	d.attach(b, root, log)
 	// resolve pointer groups that go-flags allocated, and flags.Group handles
 	d.instantiate(root.G, root, pv.Elem(), log, true)
 	d.applyProgAttrs(b)
+	// groups that the model registers late (history stages): attached last, in registration order
+	hasLate := false
+	for _, g := range d.Grps {
+		hasLate = hasLate || g.Late
+	}
+	if hasLate && b.Err == nil {
+		if why := d.resolveLive(b); why != "" {
+			b.Err = fmt.Errorf("late groups cannot be attached: %s", why)
+			return b
+		}
+		for _, g := range d.Grps {
+			if g.Late {
+				if err := d.attachLate(b, g); err != nil && b.Err == nil {
+					b.Err = err
+				}
+			}
+		}
+	}
 	return b
 }
 
@@ -689,6 +718,10 @@ func (d *Decl) attach(b *Built, c *Cmd, log *CallLog) {
 				sc.FC = c.FC.Find(sc.Name)
 			}
 			if sc.FC != nil {
+				if sc.G.Namespace != "" || sc.G.EnvNS != "" {
+					sc.FC.Group.Namespace = sc.G.Namespace
+					sc.FC.Group.EnvNamespace = sc.G.EnvNS
+				}
 				d.attach(b, sc, log)
 			}
 			continue
@@ -730,6 +763,10 @@ func (d *Decl) attach(b *Built, c *Cmd, log *CallLog) {
 				b.Err = err
 			}
 			continue
+		}
+		if !sc.Exec && (sc.G.Namespace != "" || sc.G.EnvNS != "") {
+			fc.Group.Namespace = sc.G.Namespace
+			fc.Group.EnvNamespace = sc.G.EnvNS
 		}
 		fc.Aliases = append([]string(nil), sc.Aliases...)
 		fc.SubcommandsOptional = sc.SubOptional
